@@ -948,6 +948,24 @@ func runOnce(c *Ctx, exec *ssa.Function, fnField, onceField, memoField string) {
 		}
 	}
 	c.R.Add("ONCE-O4", "FuncOnce|sets-builder-flag", "FuncOnce", posOf(p, fo), flagField != "", "the FuncOnce option sets the builder's run-once flag", "flag field: "+flagField)
+	// run-once is the caller's decision: the library never applies the option itself. A redefined or rebuilt wrapper
+	// made run-once by the library memoizes what the wrapper returns (upstream failures included), not what the
+	// function's own single execution produced.
+	if fo != nil {
+		applied := ""
+		for _, g := range p.ArgFuncs() {
+			core.Instrs(g, func(in ssa.Instruction) {
+				if ci, ok := in.(ssa.CallInstruction); ok && ci.Common().StaticCallee() == fo {
+					applied = core.FuncName(g) + " at " + p.InstrPos(in)
+				}
+			})
+		}
+		if applied == "" && p.UsedAsValue(fo) {
+			applied = "FuncOnce is used as a value"
+		}
+		c.R.Add("ONCE-O4", "FuncOnce|only-the-caller-applies-it", "FuncOnce", posOf(p, fo), applied == "",
+			"the library never applies FuncOnce on its own (a function is run-once only because the option was supplied where it was created)", ternary(applied == "", "no in-module use", "applied by "+applied))
+	}
 	copied := false
 	if nf != nil && flagField != "" {
 		core.Instrs(nf, func(in ssa.Instruction) {
